@@ -83,4 +83,15 @@ theorem run_sel_finish (ns : NsMap) (s : Sel) (hs : s.ok ns = true) :
   rw [finishCore_ok _ _ _ _ _ _ (Sel.rpush_ne ns s hs) s.after_comb]
   rfl
 
+theorem countKinds_counting (l : List (Kind × Bool)) :
+    countKinds l = ((l.map (·.1)).count .id, (l.map (·.1)).count .cls + (l.map (·.1)).count .attr,
+                    (l.map (·.1)).count .type + (l.map (·.1)).count .pelem) := by
+  induction l with
+  | nil => rfl
+  | cons k t ih =>
+    obtain ⟨kd, ng⟩ := k
+    rw [countKinds_cons, ih]
+    cases kd <;> simp [add3, Kind.count, List.count_cons] <;> omega
+
+
 end CssVerif.Sel
